@@ -17,7 +17,8 @@ From Coq Require Import List Bool Arith String.
 Import ListNotations.
 From Mv Require Import Model.Entry Model.Reconcile Model.Safety Model.Controller Model.ControllerCheck
      Proof.ControllerBase Proof.ControllerPause Proof.ControllerTerminate Proof.ControllerFlush
-     Proof.ControllerReset Proof.ControllerSaved Proof.ControllerSound Proof.Controller.
+     Proof.ControllerReset Proof.ControllerSaved Proof.ControllerSound
+     Proof.ControllerFlushTx Proof.ControllerFlushTxSound Proof.Controller.
 Local Open Scope list_scope.
 
 (* ---------------------------------------------------------------- pause *)
@@ -68,6 +69,40 @@ Proof. exact flush_sound. Qed.
 Theorem c29_flush_saved_before_answer : forall md manual sched st tr,
   run (init_state md manual) sched = Some (st, tr) -> check_saved tr = true.
 Proof. exact run_saved. Qed.
+
+(* ... and the answered cycle completed: Flush(wait) returns nil only if the
+   Transition calls of the cycle whose full scans served the request have all
+   returned, none of them with an error (the loop returns the error of a
+   failed Transition call from the cycle before it answers the request).
+   c29_flush_completed_cycle: every trace of the machine passes the monitor.
+   c29_flush_completed_cycle_sound: what an accepted trace guarantees - the
+   events between the call and the nil return split into m1 ++ w ++ m3 where
+   the monitor's scan flags of this flush are complete after m1 (by
+   c29_flush_scans_served: full scans were entered on both sides and scans
+   returned without error on both sides within m1), the window w contains no
+   scan entry, no Transition call that returned an error, and no Transition
+   call that was entered and has not returned, and w ends at the next scan
+   entry or at the return. *)
+Theorem c29_flush_completed_cycle : forall md manual sched st tr,
+  run (init_state md manual) sched = Some (st, tr) -> check_flushtx tr = true.
+Proof. exact run_flushtx. Qed.
+
+Theorem c29_flush_completed_cycle_sound : forall pre t mid post,
+  check_flushtx (pre ++ Ca t (CFlush true) :: mid ++ Rt t (CFlush true) true :: post) = true ->
+  (forall c ok, ~ In (Rt t c ok) mid) -> (forall c, ~ In (Ca t c) mid) ->
+  exists m1 w m3, mid = m1 ++ w ++ m3 /\
+    f_complete (x_f (x_run m1 (x_fresh t))) = true /\
+    (forall s f a, ~ In (Sn s f a) w) /\
+    (forall s r, ~ In (Tx s false r) w) /\
+    open_side Alpha w = false /\ open_side Beta w = false /\
+    (m3 = [] \/ exists s f a m3', m3 = Sn s f a :: m3').
+Proof. exact flushtx_sound. Qed.
+
+Theorem c29_flush_scans_served : forall t l,
+  f_complete (x_f (x_run l (x_fresh t))) = true ->
+  (exists a, In (Sn Alpha true a) l) /\ (exists a, In (Sn Beta true a) l) /\
+  (exists r c, In (Sx Alpha true r c) l) /\ (exists r c, In (Sx Beta true r c) l).
+Proof. exact x_complete_events. Qed.
 
 (* ------------------------------------------------------------ terminate *)
 
@@ -161,6 +196,9 @@ Print Assumptions c29_pause_sound.
 Print Assumptions c29_flush_wait.
 Print Assumptions c29_flush_sound.
 Print Assumptions c29_flush_saved_before_answer.
+Print Assumptions c29_flush_completed_cycle.
+Print Assumptions c29_flush_completed_cycle_sound.
+Print Assumptions c29_flush_scans_served.
 Print Assumptions c29_terminate.
 Print Assumptions c29_terminate_refuted_unfixed.
 Print Assumptions c29_terminate_sound.
